@@ -85,6 +85,11 @@ func (c *LoggerBase) GetLevel() LevelRange {
 	return c.Level
 }
 
+// loggerBase gives Refresh access to the common settings of any logger type.
+func (c *LoggerBase) loggerBase() *LoggerBase {
+	return c
+}
+
 var (
 	_ Logger = (*DiscardLogger)(nil)
 	_ Logger = (*ConsoleLogger)(nil)
